@@ -551,8 +551,9 @@ func (s *Server) admit(hr *http.Request) *Request {
 	return r
 }
 
-// park makes the request wait for a command of the driver.
-func (s *Server) park(r *Request) (ctlMsg, bool) {
+// park makes the request wait for a command of the driver. prev is the command that brought
+// the request here (Apply): it is acknowledged once the request can take the next command.
+func (s *Server) park(r *Request, prev ctlMsg) (ctlMsg, bool) {
 	r.mu.Lock()
 	r.parked = true
 	r.mu.Unlock()
@@ -561,6 +562,7 @@ func (s *Server) park(r *Request) (ctlMsg, bool) {
 	s.cond.Broadcast()
 	s.mu.Unlock()
 	s.emit("parked", r, 0)
+	ack(prev)
 	var m ctlMsg
 	ok := true
 	select {
@@ -644,7 +646,7 @@ func (s *Server) serve(w http.ResponseWriter, hr *http.Request) {
 	holdAnswer := false
 	var cmd ctlMsg
 	if f == nil && gate != nil && gate(r) {
-		m, ok := s.park(r)
+		m, ok := s.park(r, ctlMsg{})
 		if !ok {
 			s.drop(w, r)
 			return
@@ -679,8 +681,7 @@ func (s *Server) serve(w http.ResponseWriter, hr *http.Request) {
 	}
 	s.mu.Unlock()
 	if holdAnswer {
-		ack(cmd)
-		m, ok := s.park(r)
+		m, ok := s.park(r, cmd)
 		if !ok {
 			s.drop(w, r)
 			return
